@@ -43,7 +43,14 @@ def render(name, s, e, nlook):
         look = []
         for i in range(nlook):
             look += [E.ev('VFS_LOOKUP', q, data=d) for d, q in B.lookup_chunks(0x90 + i, f'/usr/{short}/lib{short}_nocancel.{i}')]
-    evs = [E.ev(name, 1, s)] + look + [E.ev(name, 2, e)]
+    related = []
+    if nlook:
+        base = name[:-len('_nocancel')] if name.endswith('_nocancel') else name
+        tc = E.codes()
+        for code, nm in tc.items():
+            if nm.startswith(base) and nm not in (base, base + '_nocancel') and (code & 3) == 0:
+                related.append(E.ev(code, 0, (0x1_0000_4000, 0x2_0000_0001, 0x7fff_ffff_ffff, 9)))
+    evs = [E.ev(name, 1, s)] + look + related + [E.ev(name, 2, e)]
     out = [t for t in p.feed_generator(E.restamp(evs)) if t.ktraces[0].eventid == evs[0].eventid]
     return [str(t) for t in out]
 
@@ -114,7 +121,7 @@ class C17(Check):
             '(name occurs; the id it is stored under in the mapping has clear qualifier bits; the name survives last-wins '
             'de-duplication of ids); per-family handler dicts pairwise disjoint; every *_nocancel entry has its base registered; '
             'for every twin pair the product of START word domains (as C09) x 3 END tuples x {0,2} lookups: renderings equal up '
-            'to the _nocancel suffix of the call name; and both twins printed twice by ONE PyKdebugParser object with byte-identical '
+            'to the _nocancel suffix of the call name (the lookups\' paths contain the call\'s own name; every code of the table whose name starts with the base name, e.g. BSC_pread_extended_info, is nested in the window); and both twins printed twice by ONE PyKdebugParser object with byte-identical '
             'tuples, in both orders, through formatted_traces. Distinct by construction; non-trivial = twin comparison runs and table '
             'entries of decoders with a _nocancel twin.')
     assumptions = ('the bundled table is read from pykdebugparser/trace.codes of the tree under test',)
